@@ -125,6 +125,45 @@ def rule_filter_and_operators(ck, repo, R):
     ck.decide('permutations(other.connected_components, len(components))' in s, R, 'components:distinct', None,
               'multi-component patterns are no longer assigned to distinct target components (permutations)', file=d.file, line=d.lineno)
     ck.decide('searching_scope.intersection(candidate)' in s, R, 'scope:restriction', None, 'search scope is no longer intersected with each candidate component', file=d.file, line=d.lineno)
+    # polarity of the flag: symmetric images are re-expanded only when the filter is OFF, and skipped only when it is ON
+    from .r_query import _ev, _Unknown
+    n_sites = 0
+    for fn in repo.module(ISO).tree.body:
+        for g in ast.walk(fn):
+            if not (isinstance(g, ast.FunctionDef) and 'automorphism_filter' in {a.arg for a in g.args.args + g.args.kwonlyargs}):
+                continue
+            pm = None
+            for site in ast.walk(g):
+                kind = None
+                if isinstance(site, ast.For) and any(isinstance(c_, ast.Call) and isinstance(c_.func, ast.Attribute) and c_.func.attr == 'get_automorphism_mapping'
+                                                     for c_ in ast.walk(site.iter)) and any(isinstance(y, (ast.Yield, ast.YieldFrom)) for y in ast.walk(site)):
+                    kind = 'expand'
+                elif isinstance(site, ast.Continue):
+                    kind = 'skip'
+                if kind is None:
+                    continue
+                if pm is None:
+                    from .astutil import enclosing_map
+                    pm = enclosing_map(g)
+                conds = reach_conditions(site, g, pm)
+                if kind == 'skip':
+                    if not any(' in seen' in src(c_) for c_ in conds):
+                        continue  # some other continue
+                flag = [c_ for c_ in conds if {x.id for x in ast.walk(c_) if isinstance(x, ast.Name)} == {'automorphism_filter'}]
+                try:
+                    on = all(_ev(c_, {'automorphism_filter': True}) for c_ in flag)
+                    off = all(_ev(c_, {'automorphism_filter': False}) for c_ in flag)
+                except _Unknown:
+                    raise AnalysisError(f'{g.name}: guard over automorphism_filter not understood')
+                n_sites += 1
+                want_ = (False, True) if kind == 'expand' else (True, False)
+                ck.decide(bool(flag) and (on, off) == want_, R, f'{g.name}:flag-polarity:{kind}', [src(c_) for c_ in flag],
+                          f'{g.name}: ' + ('the loop that re-expands a match over the automorphisms of the matched part runs when automorphism_filter is '
+                                           f'{"on" if on else "off"}{" and " if on and off else ""}{"off" if on and off else ""}; it must run exactly when the filter is off '
+                                           '(with the filter on, matches to the same atoms must be reported once)' if kind == 'expand' else
+                                           'matches to an already reported atom set are skipped under a condition that is not "automorphism_filter is on"'),
+                          file=d.file, line=site.lineno, func=g.name, construct=' and '.join(src(c_) for c_ in flag))
+    ck.require(n_sites >= 1, 'no site whose execution depends on automorphism_filter was recognised (3 on the confirmed tree: 2 skips, 1 expansion)')
     c = repo.cls(f'{ISO}:Isomorphism')
     want = {
         '__lt__': ('len(self) >= len(other)', 'self.is_substructure(other)'),
